@@ -31,7 +31,7 @@ def hook(cfg, tshim, mode):
 
     import seqm.MolecularDynamics as MDm
 
-    rec = {"apps": [], "c1": None, "c2": None, "mass": None, "temps": [], "ncalls": [0], "dof": None}
+    rec = {"apps": [], "c1": None, "c2": None, "mass": None, "temps": [], "ncalls": [0], "dof": None, "runs": []}
     draws = []
     tshim.recorder = lambda kind, r: (draws.append(r.clone()) if kind == "randn_like" else None) or r
     L = MDm.Molecular_Dynamics_Langevin
@@ -46,8 +46,11 @@ def hook(cfg, tshim, mode):
         if stat:
             return
         xi = draws[-1] if len(draws) == n0 + 1 else None
+        if not rec["runs"] or rec["runs"][-1]["id"] != id(molecule):
+            rec["runs"].append({"id": id(molecule), "mass": molecule.mass.tolist(), "c1": float(self.langevin_c1), "c2": self.langevin_c2.tolist(), "first_app": len(rec["apps"])})
         rec["apps"].append(
             {
+                "run": len(rec["runs"]) - 1,
                 "calls": rec["ncalls"][0],
                 "ndraws": len(draws) - n0,
                 "x": molecule.coordinates.detach().clone().tolist(),
@@ -130,7 +133,18 @@ def gen(rng, tier):
     cfg["out"] = {"molid": [0], "print": 0, "ckpt": 0, "xyz": 0, "h5": {"data": 0, "coordinates": 0, "velocities": 0, "forces": 0}}
     cfg["reuse_P"] = True
     cfg["remove_com"] = None
+    if cfg["driver"] == "stub" and rng.random() < 0.25:
+        # the same driver object first runs another batch of the same shape (other elements in the slots)
+        shape = sorted(len(mdsim.POOL[m][0]) for m in cfg["batch"])
+        same = [b for b in BATCHES + SAME_SHAPE if sorted(len(mdsim.POOL[m][0]) for m in b) == shape and b != cfg["batch"]]
+        if same:
+            pre = rng.choice(same)
+            # keep the slot order of sizes identical so that (nmol, molsize) and the padding pattern may differ only in elements
+            cfg["pre_run"] = {"batch": pre, "steps": 2}
     return cfg
+
+
+SAME_SHAPE = [["h2s"], ["hcl", "hf"], ["hf", "h2"], ["sih4", "hcl"], ["nh3"], ["h2co"], ["h2o", "hcl"], ["h2s", "h2"]]
 
 
 def gen_limit(rng):
@@ -195,6 +209,12 @@ def _exact(record, root):
     rep = r["report"]["hook"]
     dt, damp, T = cfg["dt"], cfg["damp"], cfg["temp"]
     c1 = math.exp(-dt / (2.0 * damp))
+    if cfg.get("pre_run"):
+        stats["probes"]["reused_driver_runs"] = 1
+    last = rep["runs"][-1] if rep["runs"] else None
+    if last is not None:
+        rep["apps"] = [a for a in rep["apps"] if a["run"] == len(rep["runs"]) - 1]
+        rep["mass"], rep["c1"], rep["c2"] = last["mass"], last["c1"], last["c2"]
     mass = np.array(rep["mass"])  # (nmol, n, 1)
     inv = np.where(mass > 0, 1.0 / np.where(mass > 0, mass, 1.0), 0.0)
     c2 = np.sqrt((1.0 - c1 * c1) * KB_AMU_A2_FS2 * T * inv)
